@@ -387,6 +387,39 @@ func (vc *VC) instr(st *State, fr *Frame, in ssa.Instruction, k func(*State, *Fr
 		a := vc.alloc(st, "clo")
 		fr.vals[x] = a
 		fr.closures[x] = ci
+		if fr.top && st.ctx != nil && st.ctx.blk != nil {
+			for i, ac := range st.ctx.blk.AtClosure {
+				if ac.Callee != "" {
+					continue
+				}
+				all := true
+				for _, want := range ac.Vars {
+					found := false
+					for _, fv := range fn.FreeVars {
+						if fv.Name() == want {
+							found = true
+						}
+					}
+					if !found {
+						all = false
+					}
+				}
+				if !all {
+					continue
+				}
+				t, err := vc.evalClause(st.ctx, st, st.ctx.old, ac.Clause.Text, vc.localsEnv(st, fr))
+				if err != nil {
+					vc.fail(fmt.Errorf("%s:%d: %v", ac.Clause.File, ac.Clause.Line, err))
+					return
+				}
+				if vc.atUsed == nil {
+					vc.atUsed = map[string]int{}
+				}
+				vc.atUsed[ac.Clause.Text]++
+				c := ac.Clause
+				vc.oblige(st, "at-closure", labelOr(c.Label, i+1), t.S, &c, "")
+			}
+		}
 	case *ssa.Range:
 		vc.rangeInit(st, fr, x)
 	case *ssa.Next:
